@@ -52,7 +52,8 @@ Verdict(rec) ==
       \* a panic, abort or hang is never an allowed outcome, whatever the program
       crashed == out.how \in {"panic", "abort", "timeout"}
       good == ~crashed /\
-        CASE exp.how = "compile" -> out.how = "compile"
+        \* (a target that cannot be assigned to may already be refused by the parser)
+        CASE exp.how = "compile" -> out.how = "compile" \/ ("lvalue" \in exp.faults /\ out.how = "parse")
           [] exp.how = "ok" -> /\ out.how = "ok"
                                /\ MatchJ(exp.obs, out.obs)
                                /\ Has(rec.chk, "final") => MatchJ(exp.final, out.final)
